@@ -256,6 +256,7 @@ def run_property(pid, tier, seed, replay, keep, only):
         os.remove(evpath)
 
     crash_violations = []
+    infra_errors = []
     job_reports = []
     ti = 0 if tier == "quick" else 1
     import prepare as prep
@@ -337,7 +338,10 @@ def run_property(pid, tier, seed, replay, keep, only):
         job_reports.append(dict(job=job["name"], gen=job["gen"], shards=nsh, checks_requested=per * nsh,
                                 build_s=round(bt, 1), run_s=round(time.time() - jt0, 1)))
         if timed_out:
-            raise Infra("job %s timed out after %ss (inconclusive); logs in %s" % (job["name"], job["timeout"][ti], logdir))
+            # inconclusive for this job; the other jobs of the property still run (a violation found by one of them is a
+            # verdict, otherwise the property ends inconclusive)
+            infra_errors.append("job %s timed out after %ss (inconclusive); logs in %s" % (job["name"], job["timeout"][ti], logdir))
+            continue
         if failed:
             # a failing test binary is a verdict only if it recorded a violation (or, for jobs whose oracle is
             # "the process survives", if the log shows a crash in the code under test)
@@ -353,13 +357,15 @@ def run_property(pid, tier, seed, replay, keep, only):
                         f.write(txt[-200000:])
                     crash_violations.append(dict(message="process crashed / race detector report in job " + job["name"], replay=rp))
                 else:
-                    raise Infra("test binary of job %s failed without recording a violation (rc=%s):\n%s" % (
+                    infra_errors.append("test binary of job %s failed without recording a violation (rc=%s):\n%s" % (
                         job["name"], rc, txt[-5000:]))
 
     st = merge_stats(sdir, pid)
-    if st["files"] == 0 and not st["violations"] and not crash_violations:
-        raise Infra("no stats were written")
     viols = st["violations"] + crash_violations
+    if infra_errors and not viols:
+        raise Infra("\n".join(infra_errors))
+    if st["files"] == 0 and not viols:
+        raise Infra("no stats were written")
     wall = time.time() - t0
     known = sorted(st["known"].values(), key=lambda k: k["id"])
     if not replay:
